@@ -457,8 +457,13 @@ def run(tier, seed, workers):
             samples.extend(r['samples'][:1])
     fl = sorted(fails.values(), key=lambda f: (len(f['input']), f['input'], f['contract']))
     classes = {}
+    minimal = {}
     for f in fl:
         classes[f['class']] = classes.get(f['class'], 0) + 1
+        if f['class'] not in minimal:
+            minimal[f['class']] = {'contract': f['contract'], 'input': f['input'],
+                                   'options_failing': f['options_failing'][:1],
+                                   'observed': f['observed']}
     out.update({
         'domain': (
             'inputs x 8 option combinations {process_html_tokens} x {html_escape_double_quotes} x '
@@ -489,7 +494,8 @@ def run(tier, seed, workers):
         'exhaustive': True,
         'samples': samples,
         'failures_total': len(fl),
-        'failure_classes': classes,
+        'failures_by_class': classes,
+        'minimal_input_per_class': minimal,
         'failures': fl[:400],
         'time_s': round(T.s(), 1),
     })
